@@ -3,7 +3,7 @@
    correspondence; what is proved is what each side guarantees alone; their agreement is decided differentially. *)
 From Coq Require Import List NArith Bool Arith.
 Import ListNotations.
-From Adeu Require Import Str Markup MarkupProofs Doc Project DocOps Inst Engine EngineProofs.
+From Adeu Require Import Str Markup MarkupProofs Doc Project DocOps Inst Engine EngineProofs Project MatchProofs BridgeProofs.
 
 (* preview side: the marked edits have non-empty, pairwise non-overlapping ranges that are the matcher's answers, indexed by
    their position in the submitted list *)
@@ -26,3 +26,22 @@ Print Assumptions C15_commit.
 Theorem C15_same_text : forall clean d, map_text (build_map clean (d_comments d) d) = extract_u clean d.
 Proof. exact map_text_is_extract. Qed.
 Print Assumptions C15_same_text.
+
+(* the exact stages of the two matchers agree: an exact, unique, marker-free target that stands on live document text is taken at the
+   same range by the preview's text-side matcher and by the commit's document-side matcher on the map of the same view (the fuzzy
+   answer fz is never consulted) *)
+Theorem C15_exact_unique_same_place : forall sp t i fz,
+  t <> [] -> ~ In c_star t -> ~ In c_us t ->
+  Markup.find t (map_text sp) = Some i ->
+  (forall k, k <= length (map_text sp) -> prefixb t (skipn k (map_text sp)) = true -> k = i) ->
+  touches_real sp i (i + length t) = true ->
+  find_on sp t = Some i /\ Markup.find_match (map_text sp) t fz = Some (i, i + length t).
+Proof. exact exact_unique_same_place. Qed.
+Print Assumptions C15_exact_unique_same_place.
+(* the hypotheses are satisfiable: text "ab|cb" where "ab|" is generated text and "cb" a run; the target "cb" *)
+Example C15_same_place_nonvacuous :
+  let sp := [ {| o_start := 0; o_end := 3; o_text := [97; 98; 124]%N; o_real := false; o_uid := 0; o_pid := None; o_ins := None; o_del := None |};
+              {| o_start := 3; o_end := 5; o_text := [99; 98]%N; o_real := true; o_uid := 1; o_pid := Some 1; o_ins := None; o_del := None |} ] in
+  Markup.find [99; 98]%N (map_text sp) = Some 3 /\ touches_real sp 3 5 = true /\ find_on sp [99; 98]%N = Some 3
+  /\ find_on sp [98]%N = Some 4 (* the "b" of the generated text is passed over *).
+Proof. vm_compute. repeat split. Qed.
